@@ -277,6 +277,7 @@ func Props() []*harness.Prop {
 		{ID: "C20", Gen: c20Gen, Exec: c20Exec},
 		{ID: "C21", Gen: c21Gen, Exec: c21Exec},
 		{ID: "C10", Gen: c10Gen, Exec: c10Exec},
+		{ID: "C26", Gen: c26Gen, Exec: c26Exec},
 		{ID: "C30", Gen: c30Gen, Exec: c30Exec},
 		{ID: "C32", Gen: c32Gen, Exec: c32Exec},
 	}
